@@ -433,6 +433,15 @@ func (s *c19State) drawKV(t *kernel.Tape, ver bool) (int, string) {
 	return int(k), v
 }
 
+func sortedValKeys(m map[int]string) []int {
+	ks := make([]int, 0, len(m))
+	for k := range m {
+		ks = append(ks, k)
+	}
+	sort.Ints(ks)
+	return ks
+}
+
 func (s *c19State) newHandle(ver bool) *c19Handle {
 	h := &c19Handle{id: len(s.hs), ver: ver, flags: map[int]bool{}, vals: map[int]string{}, partner: -1}
 	s.hs = append(s.hs, h)
@@ -492,9 +501,32 @@ func RunC19(t *kernel.Tape, o Opts) *Result {
 			h := s.clone(src)
 			clones++
 			s.trace = append(s.trace, fmt.Sprintf("%d: h%d = h%d.Clone()", step, h.id, src.id))
+			// now and then the clone gets two of its values exchanged: the same
+			// keys and the same multiset of values, differently attached
+			if ks := sortedValKeys(h.vals); len(ks) >= 2 && t.Bool(1, 3) {
+				a := t.Choose(len(ks))
+				b := (a + 1 + t.Choose(len(ks)-1)) % len(ks)
+				va, vb := h.vals[ks[a]], h.vals[ks[b]]
+				if va != vb && (h.ver || (dep.AttrKey(ks[a]) != dep.Selector && dep.AttrKey(ks[b]) != dep.Selector)) {
+					h.set(ks[a], vb)
+					h.set(ks[b], va)
+					h.mutatedAfter, src.mutatedAfter = true, true
+					mutAfterClone++
+					fault(res, "values_exchanged_between_keys", 1)
+					s.trace = append(s.trace, fmt.Sprintf("%d: h%d: values of keys %d and %d exchanged", step, h.id, ks[a], ks[b]))
+				}
+			}
 		} else {
 			h := s.hs[t.Choose(len(s.hs))]
 			k, v := s.drawKV(t, h.ver)
+			// a value already in use somewhere, possibly under another key
+			if k >= 0 && v != "" && t.Bool(1, 5) {
+				src := s.hs[t.Choose(len(s.hs))]
+				if ks := sortedValKeys(src.vals); len(ks) > 0 {
+					v = src.vals[ks[t.Choose(len(ks))]]
+					fault(res, "values_reused_under_another_key", 1)
+				}
+			}
 			h.set(k, v)
 			if h.partner >= 0 {
 				h.mutatedAfter = true
